@@ -174,11 +174,11 @@ DoStep ==
         wantErr == r.obs = ErrObs
         malformedMeta == i0.m = "setDataFrame" /\ i0.shape # "ok"
         \* acknowledgement accounting (In events only)
-        a   == IF Ev.ev = "In" THEN AckStep(win, pend, FromNat(Ev.n)) ELSE [ack |-> <<>>, pend |-> pend]
+        a   == IF Ev.ev = "In" THEN AckStep(win, pend, FromNat(Ev.n)) ELSE [ack |-> <<>>, pend |-> pend, over |-> FALSE]
         gotA == Acks(rs)
         ackBad == IF Ev.ev # "In" THEN Len(gotA) # 0
                   ELSE IF a.ack = <<>> THEN Len(gotA) # 0
-                  ELSE ~(Len(gotA) = 1 /\ gotA[1].msg.v = a.ack[1])
+                  ELSE ~(Len(gotA) = 1 /\ (a.over \/ gotA[1].msg.v = a.ack[1]))
         \* malformed argument lists about which the statement is silent: whether the call reports an error or ignores the
         \* message is not constrained; only "no event may be raised for it" is
         lenient == i0.m \in {"closeStream", "deleteStream"} /\ i0.arg # "num"
